@@ -1313,6 +1313,9 @@ fn execute_match(
                         None
                     }
                 }
+                // the fill's own pro-rated fee rounded to zero: the whole fee for the
+                // refunded quote is returned
+                (None, Some(original_bid_fee)) => Some(original_bid_fee),
                 (_, _) => None,
             }
         };
